@@ -1,6 +1,7 @@
 """C20 - the shipped date-time format constraints judge the instant, not its notation."""
 from __future__ import annotations
 
+import re
 from typing import Any, Dict, List, Tuple
 
 from ..evalmodel import STUB_MODULE, Harness
@@ -161,7 +162,8 @@ def expected(key: str, facts) -> Tuple:
         return ("ret", False, True)
     preds = facts["preds"]
     if key == "931":
-        same = [v for k, v in preds.items() if k.startswith("wallclock(")]
+        # "the offset is zero": the wall clocks agree, or the offset's length in seconds is compared with 0 - nothing coarser
+        same = [v for k, v in preds.items() if k.startswith("wallclock(") or re.fullmatch(r"\??as-written\.offset_seconds==0(\.0)?", k)]
         if not same:
             return ("undetermined",)
         return ("ret", True, False) if all(same) and len(same) == 1 else ("ret", False, True) if len(same) == 1 else ("undetermined",)
@@ -217,7 +219,7 @@ def check(ctx: Ctx) -> None:
                 fulfilled_paths += 1
             ctx.ob("C20.verdict", pkey, outcome == want,
                    f"evaluate_{key} gives (fulfilled, has message) = {outcome[1:]} on the path [{desc} {cond}], documented: {want[1:]}", file=FILE, function=fn.qualname)
-            foreign = [k for k in facts["preds"] if not (k.startswith("wallclock(") or any(k.startswith(f"{z}.") for z in ("Europe/Berlin", "UTC", "as-written")) or k.startswith("truth("))]
+            foreign = [k for k in facts["preds"] if not (k.startswith("wallclock(") or re.fullmatch(r"\??as-written\.offset_seconds==0(\.0)?", k) or any(k.startswith(f"{z}.") for z in ("Europe/Berlin", "UTC", "as-written")) or k.startswith("truth("))]
             if foreign and outcome[:2] == ("ret", True):
                 ctx.ob("C20.verdict", f"{pkey}::foreign", False, f"evaluate_{key}: a fulfilled verdict depends on {foreign} - something other than the instant / the offset", file=FILE, function=fn.qualname)
         ctx.ob("C20.verdict", f"{key}:reachable", fulfilled_paths >= 1, f"evaluate_{key} has no path on which the constraint is fulfilled for the documented condition", file=FILE, function=fn.qualname)
